@@ -63,3 +63,38 @@ fn entity_reactor_remove_cleans_every_entity()
     kani::cover!(present, "reactor present");
     std::mem::forget(world);
 }
+
+/// C16 / C18: `EntityReactor::add` on a live entity queues the local data (try_insert, for that entity) and ONE
+/// persistent registration; on a dead id, or when the reactor is missing, it queues nothing and returns false.
+#[kani::proof]
+#[kani::stub(core::any::TypeId::of, crate::vh::stub_typeid_of)]
+#[kani::stub(<core::any::TypeId as crate::vh::PEq>::eq, crate::vh::stub_typeid_eq)]
+#[kani::unwind(4)]
+fn entity_reactor_add_attaches_data_once()
+{
+    let mut world = World::new();
+    let live = world.spawn_empty().id();
+    let dead: bool = kani::any();
+    let present: bool = kani::any();
+    let target = if dead { Entity::m_new(live.index(), live.generation() + 1) } else { live };
+    let mut res = EntityWorldReactorRes::<TR>::new(SystemCommand(ent(41)));
+    let reactor: EntityReactor<TR> = EntityReactor{ inner: if present { Some(ResMut::m_new(&mut res)) } else { None } };
+    let mut captured: Vec<bevy::world::InsertCommand<EntityWorldLocal<TR>>> = Vec::with_capacity(2);
+    world.m_capture(&mut captured);
+    let wp = &mut world as *mut World;
+    let mut c = cmds(wp);
+    let data: u8 = kani::any();
+    let ok = reactor.add(&mut c, target, data);
+    assert!(ok == (present && !dead), "C16/C18: adding a dead entity or using a missing reactor reports failure");
+    if ok
+    {
+        assert!(captured.len() == 1 && captured[0].entity == live && captured[0].try_ && *captured[0].bundle.inner() == data,
+            "C16: exactly the given local data is attached to exactly that entity (try_insert: harmless if it dies meanwhile)");
+        assert!(world.m_queued() == 2, "C16: plus exactly one registration command (the shared system is never duplicated or spawned)");
+        assert!(world.m_nslots == 1, "C16: no new entity / system is reserved");
+    }
+    else { assert!(world.m_queued() == 0 && captured.len() == 0, "C16/C18: nothing is queued"); }
+    kani::cover!(ok, "added");
+    kani::cover!(dead && present, "dead entity");
+    std::mem::forget(captured); std::mem::forget(world);
+}
